@@ -366,6 +366,8 @@ class Stats:
         self.hashseed_runs = 0
         self.hashseed_differs = 0
         self.tool_lines = set()
+        self.edge_programs = 0
+        self.edge_outcomes = {}
         self.concurrent = 0
         self.concurrent_outcomes = {}
         self.sessions = 0
@@ -534,6 +536,9 @@ def run_campaign(tier, seed, jobs, only_runs=None):
         splans = _plan.session_plans(tree, seed, tier) + _plan.crash_sweep_sessions(tree, seed, tier)
         hcases = _plan.header_alone_cases(tree, seed, tier)
         cplans = _plan.concurrent_plans(tree, seed, tier)
+        from sim import edge as _edge
+
+        ecases = [{"seed": seed, "run": "edge-%s" % n, "edge_program": n} for n in _edge.names()]
         if only_runs:
             cplans = [p for p in cplans if str(p["run"]) in only_runs]
             splans = [p for p in splans if str(p["run"]) in only_runs]
@@ -567,6 +572,17 @@ def run_campaign(tier, seed, jobs, only_runs=None):
             if crec.get("harness_error"):
                 harness_errors.append(crec["harness_error"])
             return [crec]
+
+        def do_edge(c):
+            ev = _check.evaluate_case(ctx, c)
+            rec = {"run": c["run"], "kind": "edge-program", "violations": ev["violations"], "_case": c}
+            with stats.lock:
+                stats.edge_programs += 1
+                t = ev.get("edge_table") or {}
+                stats.bump(stats.edge_outcomes, "rejected everywhere" if t and all(v == "rejected" for v in t.values()) else "accepted everywhere" if t and all(v != "rejected" for v in t.values()) else "mixed")
+            if ev.get("harness_error"):
+                harness_errors.append(ev["harness_error"])
+            return [rec]
 
         def do_header(c):
             ev = _check.evaluate_case(ctx, c)
@@ -614,7 +630,7 @@ def run_campaign(tier, seed, jobs, only_runs=None):
         with ThreadPoolExecutor(jobs) as ex:
             futs = {ix: ex.submit(process, ix) for ix in order}
             sess_f = [ex.submit(do_session, sp) for sp in splans]
-            head_f = [ex.submit(do_header, c) for c in hcases] + [ex.submit(do_concurrent, cp) for cp in cplans]
+            head_f = [ex.submit(do_header, c) for c in hcases] + [ex.submit(do_concurrent, cp) for cp in cplans] + [ex.submit(do_edge, c) for c in ecases]
             sweep_ix = [i for i, p in enumerate(plans) if is_sweep(p)]
             for ix in sweep_ix:
                 futs[ix].result()
@@ -870,6 +886,7 @@ def write_evidence(tier, seed, t0, ctx, stats, cov, det, exitm, reported, known_
             "standalone_header_compiles": stats.header_alone,
             "hashseed_sweep": {"interpreters": stats.hashseed_runs, "with_different_bytes": stats.hashseed_differs},
             "tool_line_coverage": tool_line_coverage(stats),
+            "edge_programs": {"programs": stats.edge_programs, "outcomes": dict(sorted(stats.edge_outcomes.items()))},
             "concurrent_pairs": {"interleavings": stats.concurrent, "outcomes": dict(sorted(stats.concurrent_outcomes.items()))},
             "sessions": {"sessions": stats.sessions, "invocations": stats.session_invocations, "outcomes": dict(sorted(stats.session_outcomes.items()))},
             "runs_per_hour": int(runs / wall * 3600) if wall > 0 else 0,
